@@ -184,3 +184,17 @@ def cm_exit(check, cm, exc=None, allowed=()):
         raise Violation(
             check, f"leaving the block raised {type(e).__name__}: {_short(str(e), 300)}"
         ) from e
+
+
+def as_bytes(check, x, what):
+    """A result of the code under test that must be a byte string."""
+    if not isinstance(x, (bytes, bytearray)):
+        raise Violation(check, f"{what}: got {_short(x)} instead of a byte string")
+    return bytes(x)
+
+
+def as_bytes_tuple(check, xs, what):
+    """A result that must be a sequence of byte strings (e.g. a branch / a path of hashes)."""
+    if not isinstance(xs, (tuple, list)):
+        raise Violation(check, f"{what}: got {_short(xs)} instead of a sequence of hashes")
+    return tuple(as_bytes(check, x, what) for x in xs)
